@@ -112,6 +112,16 @@ func (e *Engine) doCall(s *State, d deferred, in ssa.Instruction) []callOut {
 		key := ifaceMethodKey(c)
 		if ct := e.C.Funcs[key]; ct != nil {
 			args := append([]*Val{recv}, d.args...)
+			if target, ok := ct.Flags["same_as"]; ok {
+				// the interface method has exactly one implementation in the module (checked): use its contract
+				tfn := e.P.Funcs[target]
+				tct := e.C.Funcs[target]
+				if tfn == nil || tct == nil {
+					e.unsupportedf("same_as target %s of %s has no function/contract", target, key)
+				}
+				e.checkSoleImpl(c, tfn, key, in)
+				return []callOut{{s, e.applyContract(s, tct, tfn, tfn.Signature, nil, args, in, target)}}
+			}
 			return []callOut{{s, e.applyContract(s, ct, nil, c.Method.Type().(*types.Signature), c.Value.Type(), args, in, key)}}
 		}
 		if sp, ok := extInvoke[key]; ok {
@@ -133,6 +143,15 @@ func (e *Engine) doCall(s *State, d deferred, in ssa.Instruction) []callOut {
 		fn, binds = d.fn.Fn, d.fn.Bind
 	}
 	if fn == nil {
+		// call through a package-level function variable: contract keyed by the variable
+		if u, ok := c.Value.(*ssa.UnOp); ok {
+			if g, ok := u.X.(*ssa.Global); ok && g.Pkg != nil {
+				key := PkgShort(g.Pkg.Pkg.Path()) + "." + g.Name()
+				if ct := e.C.Funcs[key]; ct != nil {
+					return []callOut{{s, e.applyContract(s, ct, nil, sig, nil, append([]*Val{d.fn}, d.args...), in, key)}}
+				}
+			}
+		}
 		return []callOut{{s, e.unknownCall(s, "func value "+c.Value.Name(), resT, d.args, in)}}
 	}
 	own := fn.Pkg != nil && strings.HasPrefix(fn.Pkg.Pkg.Path(), e.P.ModPrefix) || (fn.Parent() != nil)
@@ -309,6 +328,16 @@ func (e *Engine) applyContract(s *State, ct *Contract, fn *ssa.Function, sig *ty
 	if p := s.top().Prefix; p != "" {
 		base += "/" + p
 	}
+	// object invariant of the receiver's type, when the caller is outside the type
+	if fn != nil && fn.Signature.Recv() != nil && len(args) > 0 {
+		rk := structKey(deref(fn.Signature.Recv().Type()))
+		if inv, ok := e.C.TypeInvs[rk]; ok && !e.insideType(rk) {
+			c2 := *ctx
+			c2.Self = e.svOf(args[0], fn.Signature.Recv().Type())
+			s.assume(e.evalBool(s, &c2, inv.Expr))
+			e.note("object invariant of " + rk + " assumed for the receiver at calls from outside the type (visible-state semantics; encapsulation checked by the typeinv-encapsulation analysis)")
+		}
+	}
 	for k, rq := range ct.Requires {
 		t := e.evalBool(s, ctx, rq.Expr)
 		e.assert(s, fmt.Sprintf("%s/callee-pre#%d.%d", base, ord, k), "callee-pre", in.Pos(), "precondition of "+key+": "+rq.Text, t)
@@ -323,20 +352,25 @@ func (e *Engine) applyContract(s *State, ct *Contract, fn *ssa.Function, sig *ty
 	for _, a := range args {
 		e.escape(s, nil, a)
 	}
-	e.applyModifies(s, ct, ctx)
 	res := sig.Results()
 	var rvals []*Val
+	for i := 0; i < res.Len(); i++ {
+		ctx.RTypes = append(ctx.RTypes, res.At(i).Type())
+		ctx.RNames = append(ctx.RNames, res.At(i).Name())
+	}
+	// modifies clauses that do not mention results are applied first (allocation must precede result creation)
+	ctx.Results = nil
+	e.applyModifies(s, ct, ctx, false)
 	for i := 0; i < res.Len(); i++ {
 		v := e.havocVal(s, res.At(i).Type(), "r_"+sanitizeName(res.At(i).Name()))
 		e.assumeAllocatedVal(s, res.At(i).Type(), v)
 		rvals = append(rvals, v)
-		ctx.RTypes = append(ctx.RTypes, res.At(i).Type())
-		ctx.RNames = append(ctx.RNames, res.At(i).Name())
 	}
 	ctx.Results = rvals
 	if ctx.Results == nil {
 		ctx.Results = []*Val{}
 	}
+	e.applyModifies(s, ct, ctx, true)
 	for _, en := range ct.Ensures {
 		s.assume(e.evalBool(s, ctx, en.Expr))
 	}
@@ -353,8 +387,11 @@ func (e *Engine) applyContract(s *State, ct *Contract, fn *ssa.Function, sig *ty
 	return r
 }
 
-func (e *Engine) applyModifies(s *State, ct *Contract, ctx *SpecCtx) {
+func (e *Engine) applyModifies(s *State, ct *Contract, ctx *SpecCtx, resultPhase bool) {
 	for _, m := range ct.Modifies {
+		if strings.Contains(m, "result") != resultPhase {
+			continue
+		}
 		switch {
 		case m == "*":
 			e.havocAll(s)
@@ -674,4 +711,51 @@ func (e *Engine) builtinCopy(s *State, c *ssa.CallCommon, args []*Val) *Val {
 		e.heapSet(s, name, sortS, app("store", h, d.L[0], arr))
 	}
 	return &Val{L: []string{nn}}
+}
+
+// checkSoleImpl: an interface-method contract declared "same_as T.m" is sound only if T is the only
+// type of the module implementing the interface.
+func (e *Engine) checkSoleImpl(c *ssa.CallCommon, target *ssa.Function, key string, in ssa.Instruction) {
+	it, ok := c.Value.Type().Underlying().(*types.Interface)
+	if !ok {
+		return
+	}
+	want := target.Signature.Recv().Type()
+	var others []string
+	for _, pk := range e.P.OwnPackages() {
+		sc := pk.Types.Scope()
+		for _, name := range sc.Names() {
+			tn, ok := sc.Lookup(name).(*types.TypeName)
+			if !ok {
+				continue
+			}
+			if _, isIface := tn.Type().Underlying().(*types.Interface); isIface {
+				continue
+			}
+			for _, t := range []types.Type{tn.Type(), types.NewPointer(tn.Type())} {
+				if types.Implements(t, it) && !types.Identical(t, want) {
+					if pt, ok := want.(*types.Pointer); ok && types.Identical(t, pt.Elem()) {
+						continue
+					}
+					others = append(others, t.String())
+				}
+			}
+		}
+	}
+	e.structural(e.FnKey+"/sole-impl:"+key, "sole-impl", in.Pos(), "interface method "+key+" has a single implementation in the module", len(others) == 0, "other implementations: "+strings.Join(others, ", "))
+}
+
+// insideType: is the function being verified a method of (or declared constructor for) the type?
+func (e *Engine) insideType(typeKey string) bool {
+	fn := e.Fn
+	for fn.Parent() != nil {
+		fn = fn.Parent()
+	}
+	if r := fn.Signature.Recv(); r != nil && structKey(deref(r.Type())) == typeKey {
+		return true
+	}
+	if e.Contract != nil && e.Contract.Flags["constructs"] == typeKey {
+		return true
+	}
+	return false
 }
